@@ -2,6 +2,7 @@
    on this run (gen/Facts.v): member order, lambda statement order, get()/destructor shape,
    async()'s closure, schedule_internal's ExecuteRange, TryRunTask's decrement. *)
 From Common Require Import Prelude.
+From Coq Require Import Permutation.
 From C02 Require Import Model Proofs Sched ProofsSched ProofsSrc.
 From C02.gen Require Import Facts.
 
@@ -70,3 +71,13 @@ Print Assumptions glue_code_shape_src.
 Theorem pipe_claims_atomic_src : pipe_claims_ok pipe_front_claim_src pipe_back_claim_src pipe_write_guard_src = true.
 Proof. exact src_pipe_claims_ok. Qed.
 Print Assumptions pipe_claims_atomic_src.
+
+(* teardown on the code as it is: WaitforAll's loop condition (extracted) drains every task and every follow-up exactly once;
+   ~TaskScheduler -> WaitforAllAndShutdown = [WaitforAll; StopThreads(true); free pipes; free pinned lists] *)
+Theorem teardown_runs_everything_exactly_once_src : forall queue,
+  exists done, teardown waitforall_cond_src queue = Some ([], done) /\ Permutation done (fids queue).
+Proof. exact src_teardown. Qed.
+Print Assumptions teardown_runs_everything_exactly_once_src.
+Theorem shutdown_order_src : sdlist_eqb shutdown_steps_src shutdown_ref = true /\ dtor_shuts_down_src = true.
+Proof. exact src_shutdown_order. Qed.
+Print Assumptions shutdown_order_src.
